@@ -69,26 +69,41 @@ Theorem C14_remove_forgets : forall c now name,
 Proof. exact remove_forgets. Qed.
 Print Assumptions C14_remove_forgets.
 
-(** ... which ends a running single-target stream of that name with status OK
-    right after forwarding it, while a stream on "*" forwards it and goes on *)
-Theorem C14_remove_ends_stream : forall name now,
+(** ... which reaches EVERY subscriber of that name, whatever its subscription
+    path [q], and ends its stream with status OK right after forwarding it,
+    while a stream on "*" forwards it and goes on *)
+Theorem C14_remove_ends_stream : forall name now q,
   name <> "*"%string -> name <> ""%string ->
-  sub_step [delete_noti name "" now ["*"]] (Sub name SRunning) =
-    (Sub name SEndedOk, [SUpd (delete_noti name "" now ["*"])]) /\
-  sub_step [delete_noti name "" now ["*"]] (Sub "*" SRunning) =
-    (Sub "*" SRunning, [SUpd (delete_noti name "" now ["*"])]).
+  sub_step [delete_noti name "" now ["*"]] (Sub name q SRunning) =
+    (Sub name q SEndedOk, [SUpd (delete_noti name "" now ["*"])]) /\
+  sub_step [delete_noti name "" now ["*"]] (Sub "*" q SRunning) =
+    (Sub "*" q SRunning, [SUpd (delete_noti name "" now ["*"])]).
 Proof. exact remove_ends_stream. Qed.
 Print Assumptions C14_remove_ends_stream.
 
-Theorem C14_ended_stream_silent : forall feed T st,
-  st <> SRunning -> sub_step feed (Sub T st) = (Sub T st, []).
+Theorem C14_ended_stream_silent : forall feed T q st,
+  st <> SRunning -> sub_step feed (Sub T q st) = (Sub T q st, []).
 Proof. exact ended_stream_silent. Qed.
 Print Assumptions C14_ended_stream_silent.
 
-Theorem C14_star_stream_never_ends : forall feed,
-  fst (sub_step feed (Sub "*" SRunning)) = Sub "*" SRunning.
+Theorem C14_star_stream_never_ends : forall feed q,
+  fst (sub_step feed (Sub "*" q SRunning)) = Sub "*" q SRunning.
 Proof. exact star_stream_never_ends. Qed.
 Print Assumptions C14_star_stream_never_ends.
+
+(** several subscribers of one target (nested / sibling subscription paths):
+    what one of them is sent is [sub_step] of its own registration, whatever
+    the others are, and disconnecting subscriber i leaves every other entry of
+    the subscriber list untouched *)
+Theorem C14_subscriber_independent : forall feed s others1 others2,
+  In (sub_step feed s) (map (sub_step feed) (others1 ++ s :: others2)).
+Proof. exact subscriber_independent. Qed.
+Print Assumptions C14_subscriber_independent.
+
+Theorem C14_disconnect_spares_others : forall i l j s,
+  nth_error l j = Some s -> j <> i -> nth_error (cancel_sub i l) j = Some s.
+Proof. exact cancel_sub_other. Qed.
+Print Assumptions C14_disconnect_spares_others.
 
 (** Reset, leaves: nothing outside "meta" remains, and every leaf that was
     stored outside "meta" is matched by an announced delete of this target
